@@ -252,3 +252,31 @@ Lemma w_lookups :
   option_map (msg_time w_lc w_ts w_rt w_tab) (nthN w_all 5) = Some 106 /\
   moved_resume (nth 1 w_tab {| lc_id := 0; lc_start := 0; lc_resume := None |}) = true.
 Proof. repeat split; vm_compute; reflexivity. Qed.
+
+(* ------------------------------------------------------------------ known finding: a time-sorted view keyed by a stale start *)
+(* sort:true.  One lifecycle; the sort thread cached start 100 for it.  The message with timestamp 13 got through 5 faster
+   than the others (reception 108 = 95 + 13): the lifecycle's start_time moves to 95.  all_msgs is in the order of the
+   sorter's key min(100 + timestamp, reception) - which is the reception order -, the times the lookup compares are
+   95 + timestamp: 95..102, 108, 104..107, 109, 110.  Requested time 105: the answer is 10 (the message of time 105), but the
+   stream message at position 8 (time 108) is not before 105 *)
+Definition st_cached : list lc_entry := [ {| lc_id := 1; lc_start := 100; lc_resume := None |} ].
+Definition st_final : list lc_entry := [ {| lc_id := 1; lc_start := 95; lc_resume := None |} ].
+Definition st_all : list (N * N * N) :=
+  [ (1, 0, 100); (1, 1, 101); (1, 2, 102); (1, 3, 103); (1, 4, 104); (1, 5, 105); (1, 6, 106); (1, 7, 107);
+    (1, 13, 108);
+    (1, 9, 109); (1, 10, 110); (1, 11, 111); (1, 12, 112); (1, 14, 114); (1, 15, 115) ].
+
+Lemma st_witness :
+  ordered_by (sort_key w_lc w_ts w_rt st_cached) st_all = true /\
+  map (msg_time w_lc w_ts w_rt st_final) st_all = [95; 96; 97; 98; 99; 100; 101; 102; 108; 104; 105; 106; 107; 109; 110] /\
+  lookup_time_tab w_lc w_ts w_rt st_final st_all w_s 105 = 10 /\
+  stream_msg st_all w_s 8 = Ok (1, 13, 108) /\ msg_time w_lc w_ts w_rt st_final (1, 13, 108) = 108.
+Proof. repeat split; vm_compute; reflexivity. Qed.
+
+Lemma st_not_partitioned : ~ partitioned_at st_all (msg_time w_lc w_ts w_rt st_final) 105.
+Proof.
+  intros H. specialize (H 8 9 (1, 13, 108) (1, 9, 109)).
+  assert (Hc : 105 <= msg_time w_lc w_ts w_rt st_final (1, 9, 109)).
+  { apply H; [lia|reflexivity|reflexivity|]. vm_compute. discriminate. }
+  vm_compute in Hc. apply Hc. reflexivity.
+Qed.
